@@ -125,3 +125,44 @@ func VerifC12_NoneRefused() {
 	vAssert(err != nil && sess == nil, "c12-suites-with-none-are-refused-with-an-error")
 	vReached("end")
 }
+
+// C12 (histories): the choice made for one BMC does not depend on earlier choices made
+// with the same preference list (or the default list) for other BMCs: two discoveries in
+// a row, each against its own advertised set; the second must be what the reference says
+// for a fresh library state, and the caller's preference list must be left unchanged.
+func VerifC12_TwoDiscoveries() {
+	useDefault := vBool()
+	var prefs []ipmi.CipherSuite
+	if !useDefault {
+		prefs = []ipmi.CipherSuite{ipmi.CipherSuite17, ipmi.CipherSuite3, {AuthenticationAlgorithm: 2, IntegrityAlgorithm: 2, ConfidentialityAlgorithm: 1}}
+	}
+	eff := []ipmi.CipherSuite{ipmi.CipherSuite17, ipmi.CipherSuite3}
+	if !useDefault {
+		eff = append([]ipmi.CipherSuite{}, prefs...)
+	}
+	for round := 0; round < 2; round++ {
+		ft := &vFakeTransport{}
+		s := vNewSessionless(ft)
+		// each BMC advertises an arbitrary subset of the preferences (as standard records)
+		var data []byte
+		var adv []ipmi.CipherSuite
+		for i, p := range eff {
+			if vBool() {
+				data = append(data, 0xC0, byte(i), byte(p.AuthenticationAlgorithm), 0x40|byte(p.IntegrityAlgorithm), 0x80|byte(p.ConfidentialityAlgorithm))
+				adv = append(adv, p)
+			}
+		}
+		bmc := &refSuiteBMC{data: data}
+		ft.reply = func(attempt int, req []byte) ([]byte, error) { return bmc.handle(req), nil }
+		got, err := s.determineCipherSuite(context.Background(), prefs)
+		if len(adv) == 0 {
+			vAssert(err == ErrNoSupportedCipherSuite, "c12-history-no-supported-suite")
+		} else {
+			vAssert(err == nil && vSuiteEq(*got, adv[0]), "c12-history-first-advertised-preference-whatever-came-before")
+		}
+		for i := range prefs {
+			vAssert(vSuiteEq(prefs[i], eff[i]), "c12-history-caller's-preference-list-unchanged")
+		}
+	}
+	vReached("end")
+}
